@@ -136,6 +136,51 @@ Definition prepare (P : policy) (i : input) : option (res output) :=
   end.
 
 
+(* ------------------------------------------------------------------ the constructor's other keywords
+   json_formatter= (the documented hook: in the JSON form the page is json.dumps of what the
+   formatter returns; a formatter that raises lets the error propagate) and the WebOb Response
+   keywords content_type= / charset= (they set the initial Content-Type header, which prepare()
+   overwrites with the negotiated type).  [prepare_x] is [prepare] with these; the core model
+   above is the case "no formatter" (Proofs: prepare_x_core). *)
+Record xinput := mkX {
+  x_in : input;
+  x_fmt : option fmt;              (* json_formatter= *)
+  x_ctype_kw : option text;        (* content_type= (a type without parameters) *)
+  x_charset_kw : option text       (* charset= ('' stands for None as well) *)
+}.
+Definition kw_of (x : xinput) : list (text * text) :=
+  (match x_ctype_kw x with Some v => [(k_content_type, v)] | None => [] end) ++
+  (match x_charset_kw x with Some v => [(k_charset, v)] | None => [] end).
+
+Definition page_of_x (f : option fmt) (environ : list (text * text)) (b : branch) (c : cls) (body : text) : res text :=
+  match f, b_page b with
+  | Some f, PageJson => rmap json_object (apply_fmt f (status_of c) body (c_title c) environ [])
+  | _, _ => page_of b c body
+  end.
+
+Definition page_text_x (P : policy) (b : branch) (c : cls) (x : xinput) : res text :=
+  let i := x_in x in
+  let tmpl := match i_tmpl i with Some t => t | None => c_tmpl c end in
+  let custom := match i_tmpl i with Some _ => true | None => negb (c_default_tmpl c) end in
+  rbind (substitute tmpl (build_args P b c i custom)) (page_of_x (x_fmt x) (i_environ i) b c).
+
+Definition prepare_x (P : policy) (x : xinput) : option (res output) :=
+  let i := x_in x in
+  match find_cls (i_cls i) classes with
+  | None => None
+  | Some c =>
+      if c_empty c then Some (Ok (mkOutput (status_of c) [] [] []))
+      else
+        match pick_branch (chosen_type i) (p_branches P) with
+        | None => None
+        | Some b =>
+            Some (rbind (page_text_x P b c x) (fun page =>
+                  rmap (fun bytes => mkOutput (status_of c) (b_ctype b)
+                                              (if b_charset_none b then [] else cs_utf8) bytes)
+                       (utf8_bytes page)))
+        end
+  end.
+
 (* ------------------------------------------------------------------ specification
    The property's wording as a policy: in the HTML form every supplied text goes through
    html_escape (comment inside an HTML comment), in the JSON and plain forms it is used as
@@ -159,6 +204,7 @@ Definition spec_policy : policy :=
     true true.
 
 Definition spec (i : input) : option (res output) := prepare spec_policy i.
+Definition spec_x (x : xinput) : option (res output) := prepare_x spec_policy x.
 
 (* best acceptable of HTML, JSON, plain: the first offer the negotiation kept, else plain *)
 Definition spec_type (i : input) : text :=
@@ -265,6 +311,18 @@ Definition json_read_object (s : text) : option (list (text * text)) :=
 Definition get_pair (v : val) : option (text * text) :=
   match v with VL [VT a; VT b] => Some (a, b) | _ => None end.
 Definition get_pairs := get_list_of get_pair.
+Definition get_fsrc (v : val) : option fsrc :=
+  match v with
+  | VL [VI 0%Z] => Some FBody
+  | VL [VI 1%Z] => Some FStatus
+  | VL [VI 2%Z] => Some FTitle
+  | VL [VI 3%Z; VT t] => Some (FConst t)
+  | VL [VI 4%Z; VT k] => Some (FEnv k)
+  | VL [VI 5%Z; VT k; VT d] => Some (FEnvGet k d)
+  | _ => None
+  end.
+Definition get_member (v : val) : option (text * fsrc) :=
+  match v with VL [VT k; s] => olet s := get_fsrc s in Some (k, s) | _ => None end.
 
 Definition put_res (r : option (res output)) : val :=
   match r with
@@ -302,22 +360,41 @@ Fixpoint calls (P : policy) (i : input) (done : option output) (l : list step) :
       end
   end.
 
+(* the same threading for any single-call function (used with prepare_x) *)
+Fixpoint calls_g (prep : step -> option (res output)) (done : option output) (l : list step) : list (option (res output)) :=
+  match l with
+  | [] => []
+  | s :: r =>
+      match done with
+      | Some o => Some (Ok o) :: calls_g prep done r
+      | None => let x := prep s in x :: calls_g prep (stored x) r
+      end
+  end.
+Definition with_call_x (x : xinput) (s : step) : xinput :=
+  mkX (with_call (x_in x) s) (x_fmt x) (x_ctype_kw x) (x_charset_kw x).
+
 (* ------------------------------------------------------------------ the REGENERATED program as a model
    The object a constructor call builds (class-level attributes first, then gen_init /
    gen_move_init, then the harness's assignment to .explanation), and calls threaded through
    the object state. *)
 Definition obj_class (c : cls) : obj :=
-  mkObj (c_code c) (c_title c) (c_expl c) (c_tmpl c) (negb (c_default_tmpl c)) (c_empty c) [] None None [] [] [] [].
+  mkObj (c_code c) (c_title c) (c_expl c) (c_tmpl c) (negb (c_default_tmpl c)) (c_empty c) [] None None [] [] [] [] None.
 Definition set_expl (x : option text) (o : obj) : obj :=
   match x with
   | None => o
   | Some e => mkObj (ob_code o) (ob_title o) e (ob_tmpl o) (ob_tmpl_custom o) (ob_empty o) (ob_status o)
-                    (ob_detail o) (ob_comment o) (ob_headers o) (ob_ctype o) (ob_charset o) (ob_body o)
+                    (ob_detail o) (ob_comment o) (ob_headers o) (ob_ctype o) (ob_charset o) (ob_body o) (ob_formatter o)
   end.
-Definition gen_obj (c : cls) (i : input) : obj :=
+Definition gen_obj_x (c : cls) (x : xinput) : obj :=
+  let i := x_in x in
   set_expl (i_expl i)
-    (if c_move c then gen_move_init (obj_class c) (i_location i) (i_detail i) (i_headers i) (i_comment i) (i_tmpl i) []
-     else gen_init (obj_class c) (i_detail i) (i_headers i) (i_comment i) (i_tmpl i) []).
+    (if c_move c then gen_move_init (obj_class c) (i_location i) (i_detail i) (i_headers i) (i_comment i) (i_tmpl i)
+                                    (x_fmt x) (kw_of x)
+     else if mem_text (c_name c) forbidden_init_classes
+     then gen_forbidden_init (obj_class c) (i_detail i) (i_headers i) (i_comment i) (i_tmpl i) (x_fmt x) (kw_of x)
+     else gen_init (obj_class c) (i_detail i) (i_headers i) (i_comment i) (i_tmpl i) (x_fmt x) (kw_of x)).
+Definition core (i : input) : xinput := mkX i None None None.
+Definition gen_obj (c : cls) (i : input) : obj := gen_obj_x c (core i).
 
 Fixpoint gen_calls (o : obj) (l : list step) : list (res output) :=
   match l with
@@ -333,21 +410,25 @@ Fixpoint gen_calls (o : obj) (l : list step) : list (res output) :=
 (* a call that raised leaves the object as it was, except for what prepare() had already
    assigned (content type / charset), which the next rendering overwrites; see Proofs *)
 
-Definition model_calls (i : input) (l : list step) : list (option (res output)) :=
-  match find_cls (i_cls i) classes with
+Definition model_calls_x (x : xinput) (l : list step) : list (option (res output)) :=
+  match find_cls (i_cls (x_in x)) classes with
   | None => map (fun _ => None) l
-  | Some c => map Some (gen_calls (gen_obj c i) l)
+  | Some c => map Some (gen_calls (gen_obj_x c x) l)
   end.
-Definition model (i : input) : option (res output) :=
-  match find_cls (i_cls i) classes with
+Definition model_x (x : xinput) : option (res output) :=
+  match find_cls (i_cls (x_in x)) classes with
   | None => None
-  | Some c => Some (rmap fst (gen_call (fun _ _ => i_offers i) (gen_obj c i) (i_environ i)))
+  | Some c => Some (rmap fst (gen_call (fun _ _ => i_offers (x_in x)) (gen_obj_x c x) (i_environ (x_in x))))
   end.
+Definition model_calls (i : input) (l : list step) : list (option (res output)) := model_calls_x (core i) l.
+Definition model (i : input) : option (res output) := model_x (core i).
 
 (* the reference model of a history (hand-written) *)
 Definition ref_calls (i : input) (l : list step) := calls spec_policy i None l.
 (* what a fresh object would answer to each call on its own *)
 Definition spec_singles (i : input) (l : list step) := map (fun s => prepare spec_policy (with_call i s)) l.
+Definition ref_calls_x (x : xinput) (l : list step) := calls_g (fun s => prepare_x spec_policy (with_call_x x s)) None l.
+Definition spec_singles_x (x : xinput) (l : list step) := map (fun s => prepare_x spec_policy (with_call_x x s)) l.
 
 (* the property on a history, as a check of observed responses [rs] against [spec_singles]:
    every rendered response is, content type, charset and body together, the specified
@@ -374,25 +455,35 @@ Definition history_ok (rs singles : list (option (res output))) : bool := histor
 Definition get_step (v : val) : option step :=
   match v with VL [e; o] => olet e := get_pairs e in olet o := get_texts o in Some (e, o) | _ => None end.
 
-(* case = [cls; detail?; comment?; explanation?; location; headers; environ; body_template?; offers]
+(* ext = [formatter?; content_type kw?; charset kw?], formatter = [[key; source] ...]
+   case = [cls; detail?; comment?; explanation?; location; headers; environ; body_template?; offers; ext]
    answer = [model; spec; spec_type]
-   history case = [cls; detail?; comment?; explanation?; location; headers; body_template?; [[environ; offers] ...]]
+   history case = [cls; detail?; comment?; explanation?; location; headers; body_template?; [[environ; offers] ...]; ext]
    answer = [model responses; single-call specifications; model history satisfies history_ok] *)
+Definition get_ext (i : input) (v : val) : option xinput :=
+  match v with
+  | VL [f; ck; cs] =>
+      olet f := get_opt (get_list_of get_member) f in olet ck := get_opt get_text ck in
+      olet cs := get_opt get_text cs in Some (mkX i f ck cs)
+  | _ => None
+  end.
 Definition run_C19 (v : val) : val :=
   ret_or_bad (
     match v with
-    | VL [c; d; cm; ex; loc; hs; en; tm; ofs] =>
+    | VL [c; d; cm; ex; loc; hs; en; tm; ofs; ext] =>
         olet c := get_text c in olet d := get_opt get_text d in olet cm := get_opt get_text cm in
         olet ex := get_opt get_text ex in olet loc := get_text loc in olet hs := get_pairs hs in
         olet en := get_pairs en in olet tm := get_opt get_text tm in olet ofs := get_texts ofs in
         let i := mkInput c d cm ex loc hs en tm ofs in
-        Some (VL [put_res (model i); put_res (spec i); VT (spec_type i)])
-    | VL [c; d; cm; ex; loc; hs; tm; steps] =>
+        olet x := get_ext i ext in
+        Some (VL [put_res (model_x x); put_res (spec_x x); VT (spec_type i)])
+    | VL [c; d; cm; ex; loc; hs; tm; steps; ext] =>
         olet c := get_text c in olet d := get_opt get_text d in olet cm := get_opt get_text cm in
         olet ex := get_opt get_text ex in olet loc := get_text loc in olet hs := get_pairs hs in
         olet tm := get_opt get_text tm in olet l := get_list_of get_step steps in
         let i := mkInput c d cm ex loc hs [] tm [] in
-        Some (VL [VL (map put_res (model_calls i l)); VL (map put_res (spec_singles i l));
-                  vbool (history_ok (model_calls i l) (spec_singles i l))])
+        olet x := get_ext i ext in
+        Some (VL [VL (map put_res (model_calls_x x l)); VL (map put_res (spec_singles_x x l));
+                  vbool (history_ok (model_calls_x x l) (spec_singles_x x l))])
     | _ => None
     end).
